@@ -59,8 +59,32 @@ func c07Config(r *fw.Rec, v int, l qrref.Level, mask int, reps int) {
 			continue
 		}
 		text, segs, charset := qrPayload(rng, mode, n)
+		if mode == qrref.Byte && rng.Intn(3) == 0 && n >= 6 {
+			// byte mode in a declared character set other than UTF-8: the count field counts the
+			// bytes of THAT encoding, which differ in number from the text's UTF-8 bytes
+			e := &csTable[rng.Intn(len(csTable))]
+			if e.Kind == 0 || e.Kind == 1 || e.Kind == 3 {
+				rs := []rune{rune('a' + rng.Intn(26))}
+				var bs []byte
+				for {
+					cand := append(append([]rune{}, rs...), csRandomRune(rng, e))
+					b, ok := e.csEncode(string(cand))
+					if !ok || len(b) > n-2 {
+						break
+					}
+					rs, bs = cand, b
+				}
+				if bs != nil && len(bs) != len(string(rs)) {
+					text, charset = string(rs), e.Name
+					segs = []qrref.Segment{{Mode: qrref.ModeECI, ECI: e.Values[0]}, {Mode: qrref.Byte, Data: bs, ECI: -1}}
+					r.Tally("byte_mode_in_declared_non_utf8_charset")
+				}
+			}
+		}
 		gs1 := false
-		if rep%3 == 2 || (reps == 1 && (v+mask)%5 == 0) {
+		if charset != "" && charset != "Shift_JIS" && mode == qrref.Byte {
+			// declared character set: no GS1 variant on top
+		} else if rep%3 == 2 || (reps == 1 && (v+mask)%5 == 0) {
 			// GS1 symbols: FNC1 in first position after any ECI header (ISO 18004: ECI designator first).
 			// Byte-mode content additionally gets a character-set hint so that both headers occur together.
 			gs1 = true
@@ -256,7 +280,7 @@ func c07Tables(r *fw.Rec) {
 }
 
 func c07(c *fw.Ctx) {
-	c.Rule("all 1280 (version, level, mask) configurations, each with N payloads (modes rotate over numeric/alphanumeric/byte UTF-8/kanji, length capacity, capacity-1 or random; a third of the payloads as GS1 symbols: FNC1 in first position, after the ECI header where a character set is declared): library Encoder_encode with forced version and mask vs qrref.BuildMatrix module for module, and the library decoder on the qrref-built symbol (text, raw data codewords, level); plus the decoder's per-version tables and all 32+34 BCH words; distinct = distinct (version, level, mask, payload)")
+	c.Rule("all 1280 (version, level, mask) configurations, each with N payloads (modes rotate over numeric/alphanumeric/byte UTF-8/kanji, a third of the byte payloads in another declared character set of the registry - ECI header, count field = bytes of that encoding -, length capacity, capacity-1 or random; a third of the payloads as GS1 symbols: FNC1 in first position, after the ECI header where a character set is declared): library Encoder_encode with forced version and mask vs qrref.BuildMatrix module for module, and the library decoder on the qrref-built symbol (text, raw data codewords, level); plus the decoder's per-version tables and all 32+34 BCH words; distinct = distinct (version, level, mask, payload)")
 	c.Assume("qrref (harness/ref/qrref) is the transcription of ISO/IEC 18004: tables typed independently, geometry/BCH/capacities computed; anchored on Annex I and published capacities in the start-up self-test")
 	c.Assume("automatic mask selection is not compared (the N3 penalty rule is ambiguous in the standard); masks are forced")
 	reps := c.Pick(6, 60)
@@ -278,4 +302,5 @@ func c07(c *fw.Ctx) {
 	c.Floor("version_words_equal", 34)
 	c.Floor("version_word_error_patterns_decoded", 34*988)
 	c.Floor("format_word_error_patterns_decoded", 32*576)
+	c.Floor("byte_mode_in_declared_non_utf8_charset", 200)
 }
